@@ -136,6 +136,25 @@ func buildInputs(seed int64) {
 	addCase("sig-63-bytes", k1.pk, m1, honest1[:63])
 	addCase("sig-65-bytes", k1.pk, m1, append(append([]byte{}, honest1...), 0))
 	addCase("wrong-message", k1.pk, m2, honest1)
+	// a pair of invalid signatures whose errors cancel in an UNWEIGHTED sum (S+1 under k1, S-1 under k2): only
+	// independent random coefficients make the batch equation reject them
+	{
+		bump := func(sig []byte, neg bool) []byte {
+			out := append([]byte{}, sig...)
+			sv, _ := scalar.NewFromCanonicalBytes(out[32:])
+			one := scalar.One()
+			if neg {
+				sv.Sub(sv, one)
+			} else {
+				sv.Add(sv, one)
+			}
+			b, _ := sv.MarshalBinary()
+			copy(out[32:], b)
+			return out
+		}
+		addCase("cancelling-pair(S+1,k1)", k1.pk, m1, bump(honest1, false))
+		addCase("cancelling-pair(S-1,k2)", k2.pk, m2, bump(ed25519.Sign(sk2, m2), true))
+	}
 	t1 := enc(tors[1])
 	addCase("small-order-A(T1)", t1, m1, craft(zero, "c", plainR, t1, m1))
 	// grind a message so that the small-order key also passes cofactorless (k*T1 == O iff 8 | k)
@@ -505,6 +524,8 @@ func run(c *mc.Ctx) {
 	must("ctx-honest", "ctx-B", false)
 	must("ph-honest", "ph", true)
 	must("S+L", "zip215", false)
+	must("cancelling-pair(S+1,k1)", "zip215", false)
+	must("cancelling-pair(S-1,k2)", "zip215", false)
 
 	expandedVsSingle(c)
 	batchHistories(c)
@@ -567,6 +588,8 @@ func batchAlphabet(core bool) []bop {
 		{kind: 6, rd: 0}, {kind: 7, rd: 0},
 		{kind: 1, ci: C("small-order-A(T1)"), oi: O("zip215")},
 		{kind: 3, ci: C("mixed-order-A"), oi: O("default")},
+		{kind: 0, ci: C("cancelling-pair(S+1,k1)")},
+		{kind: 0, ci: C("cancelling-pair(S-1,k2)")},
 	}
 	if core {
 		return ops
@@ -624,9 +647,9 @@ func batchHistories(c *mc.Ctx) {
 		core  bool
 		depth int
 	}
-	plans := []plan{{"batch-hist/full", false, 3}, {"batch-hist/core", true, 5}}
+	plans := []plan{{"batch-hist/full", false, 3}, {"batch-hist/core", true, 4}}
 	if c.Thorough {
-		plans = []plan{{"batch-hist/full", false, 4}, {"batch-hist/core", true, 6}}
+		plans = []plan{{"batch-hist/full", false, 4}, {"batch-hist/core", true, 5}}
 	}
 	for _, pl := range plans {
 		alphabet := batchAlphabet(pl.core)
